@@ -87,6 +87,7 @@ type Inst struct {
 	V       *vstore.Store
 	DB      *clover.DB
 	Uses    int
+	OnOpen  func(*Inst) // run on every replacement instance Fresh opens (e.g. pre-growing a bbolt file)
 }
 
 func Open(backend string) (*Inst, error) {
@@ -170,7 +171,11 @@ func (i *Inst) Fresh(kvs []vstore.KV) (*Inst, error) {
 		if err != nil {
 			return nil, err
 		}
+		n.OnOpen = i.OnOpen
 		*i = *n
+		if i.OnOpen != nil {
+			i.OnOpen(i)
+		}
 	}
 	i.V.Hook, i.V.PostHook, i.V.FailAt = nil, nil, nil
 	if otx, _, _ := i.V.Leaks(); otx > 0 {
@@ -180,7 +185,11 @@ func (i *Inst) Fresh(kvs []vstore.KV) (*Inst, error) {
 		if err != nil {
 			return nil, err
 		}
+		n.OnOpen = i.OnOpen
 		*i = *n
+		if i.OnOpen != nil {
+			i.OnOpen(i)
+		}
 	}
 	i.V.ForgetLeaks()
 	if err := vstore.Restore(i.Raw, kvs); err != nil {
@@ -190,7 +199,11 @@ func (i *Inst) Fresh(kvs []vstore.KV) (*Inst, error) {
 		if err2 != nil {
 			return nil, err2
 		}
+		n.OnOpen = i.OnOpen
 		*i = *n
+		if i.OnOpen != nil {
+			i.OnOpen(i)
+		}
 		if err := vstore.Restore(i.Raw, kvs); err != nil {
 			return nil, err
 		}
